@@ -1,8 +1,8 @@
 #!/bin/bash
 # Build the overlay venv used by all checks (offline). Idempotent, safe to call concurrently.
 set -e
-V=/verif/.venv
-exec 9>/tmp/.verif_venv.lock
+V="$(cd "$(dirname "${BASH_SOURCE[0]}")" && pwd)/.venv"
+exec 9>"/tmp/.verif_venv_$(echo "$V" | md5sum | cut -c1-8).lock"
 flock 9
 if [ -x "$V/bin/python" ] && "$V/bin/python" -c "import crosshair, z3, bitcoinlib" 2>/dev/null; then
     exit 0
